@@ -157,3 +157,10 @@ package generic
 //@   at call! WithTimeout#1 assert #the-round-waits-for-the-given-timeout arg1 == timeout
 //@   at call! executeCallback#1 assert #the-first-callback-whose-trigger-holds-runs-with-the-accumulated-output firstTrig(arg1, arg0, arg2) && arg1 === callbacks && arg4 == timeout
 //@   at return assert #no-report-in-time-is-a-timeout-error cancelled(ctx) && r == nil ==> result.1 != nil && isErr(result.1, util.ErrTimeoutError) && len(result.0) == 0
+
+// ---- C12 / C13: the driver-level interactive send hands the events to the channel unchanged -----------------------------------
+//@ func (*Driver).SendInteractive [C12 C13]
+//@   requires RI(d.Channel.Q) && d.Channel.PromptSearchDepth >= 0 && (forall k int :: 0 <= k && k < len(events) ==> events[k] != nil)
+//@   at call! SendInteractive#1 assert #the-events-and-options-reach-the-channel-unchanged arg0 === events && arg1 === opts
+//@   at call! NewResponse#1 assert #operation-failure-strings-win-when-given arg3 === (len(old(op.FailedWhenContains)) == 0 ? d.FailedWhenContains : old(op.FailedWhenContains))
+//@   ensures #nil-on-error result.1 != nil ==> result.0 == nil
